@@ -66,8 +66,8 @@ where
                     b'A'..=b'Z' => decoded |= ((tem - b'A') as u32) << (6 * (3 - i)),
                     b'a'..=b'z' => decoded |= ((tem - b'a' + 26) as u32) << (6 * (3 - i)),
                     b'0'..=b'9' => decoded |= ((tem - b'0' + 52) as u32) << (6 * (3 - i)),
-                    b'+' => decoded |= 62_u32 << (6 * i),
-                    b'/' => decoded |= 63_u32 << (6 * i),
+                    b'+' => decoded |= 62_u32 << (6 * (3 - i)),
+                    b'/' => decoded |= 63_u32 << (6 * (3 - i)),
                     b'=' => {
                         broken = i;
                         break;
